@@ -3,6 +3,7 @@
 import json, sys
 pid = sys.argv[1]
 wt = sys.argv[2]
+avoid = sys.argv[3] if len(sys.argv) > 3 else None
 p = [json.loads(l) for l in open('/verif/properties.jsonl') if json.loads(l)['id'] == pid][0]
 print(f"""You are testing how well a semantic property of a Rust code base is protected. You work ONLY inside the git worktree {wt} (a scratch checkout of the foyer hybrid-cache repository, foyer-rs/foyer). Do not read or write anything under /verif or /repo, and do not use the network (there is none; always pass --offline to cargo and set CARGO_NET_OFFLINE=true). Use your own build directory: export CARGO_TARGET_DIR={wt}/target for every cargo command.
 
@@ -16,7 +17,7 @@ Your task: produce ONE realistic change to the library source of foyer (the kind
  1. the code still compiles and the WHOLE existing test suite still passes (`cargo test --workspace --no-fail-fast --offline` in {wt}; run it, it takes a few minutes),
  2. the property above is broken, and
  3. the breakage needs something specific to manifest - a particular interleaving, a crash or fault at a particular point, a multi-step sequence of operations, an unusual input (hash collision, weight 0, huge entry, ...), or two cooperating sites that each look fine alone - NOT something ordinary use would expose at once.
-Do not touch tests, Cargo files or public API signatures in the change itself; keep it small (ideally under 15 changed lines) and plausible. Avoid changes that merely panic or fail to compile.
+{("An earlier attempt already produced this change, so yours must be different in kind and touch a different function: " + avoid + chr(10)) if avoid else ""}Do not touch tests, Cargo files or public API signatures in the change itself; keep it small (ideally under 15 changed lines) and plausible. Avoid changes that merely panic or fail to compile.
 
 Then write a demonstration: a new test (an integration test file or a #[cfg(test)] test added in a separate patch) or small program that FAILS with your change applied and PASSES on the unmodified code. It may use the crates' `test_utils` features and loops / many trials if the failure is schedule dependent, but should finish within about two minutes. Verify both directions yourself.
 
